@@ -37,6 +37,11 @@ CHECKS = {
              "sibling-consistent; names are compared through local_name() only; raw document slices pass an unescape before being stored; doc ids are drawn once "
              "per declaration in the start handler.",
              "that the model mirrors the document for every document and rendering (an input/output equivalence over an infinite language).", "§5 C04"),
+    "C05": C("WIRE: symbolic walk of every FsmWriter function and its FsmReader sibling into annotated operation sequences (K4), flag-table mapping, field coverage (K11), primitive tables and bit budgets (K4/K8)",
+             "the 23 writer/reader pairs define the same wire grammar (operation kinds, model fields, loops, presence guards through the flag bits); the "
+             "executable-content and Data variant dispatch tables agree; every field of the 16 persisted structs is written and read (or exempt with a reason); "
+             "integer type nibbles, thresholds and byte counts agree; every value fits the bits of its encoding; the reader narrows no integer.",
+             "trace equality after reload (argued from identical persisted model + C02 determinism); Data values (delegated to to_string/parse).", "§5 C05"),
     "C06": C("custom HIR/MIR rules: dominance of history recording over removal (K2), filter and key provenance (K3), who-may-write historyValue (K1)",
              "history values are recorded from the configuration before anything is removed; deep/shallow filters and keys; the history branch of "
              "addDescendantStatesToEnter and getEffectiveTargetStates; order onentry, initial content, default history content from the per-microstep table.",
@@ -89,6 +94,11 @@ CHECKS = {
              "per-session lock instances); no same-class nesting without ptr_eq guard / audited descent / fresh instance; no wait on another thread while holding a lock "
              "except the receiver lock at recv.",
              "fairness or progress beyond absence of lock cycles; host-supplied actions/processors; Mutex is assumed the only blocking primitive.", "§5 C17"),
+    "C18": C("MIR must-pass-through of has_error() before Ok (K2), diverging-edge audit of the .rfsm reader (K5), io::Result / byte-count discipline (K2/K3), sticky error-state rule (K1/K2)",
+             "every Ok result of FsmReader::read is dominated by the no-error branch of has_error() with no read in between; every panic-capable edge reachable "
+             "from the reader is discharged, audited or a finding; every io::Result of the protocol writer reaches eval_result and no Write::write count is "
+             "discarded; every read operation tests the sticky `ok` flag and only error() clears it.",
+             "nothing beyond these paths (the clause is structural by nature); corrupted (not truncated) images.", "§5 C18"),
     "C19": C("custom HIR rules: byte/char unit lattice over string positions (K8), result-leaf enumeration of nameMatch (K2), case-fold query with positive control (K1), normalisation closure shape (K2)",
              "every string position in nameMatch is addressed in the unit it was computed in; every true result is wildcard / full match / token-boundary match; no case "
              "folding between the event attribute and the comparison; the reader strips exactly trailing '.*' and '.' repeatedly; wildcard is events.contains('*').",
